@@ -13,7 +13,10 @@ import render_common as rc
 RULE = ("cases = (text, width); exhaustive over the alphabet {a,b,' ','\\n','\\t','-'} up to length 6 (quick) / 8 (thorough; "
         "lengths 7, 8 up to the a<->b renaming) x widths 1..6, plus random texts up to 400 characters (long words, hyphenated words, "
         "runs of blanks, tabs, \\r \\v \\f, unicode blanks, lines of exactly the width) x widths 1..100, EntryWidget texts, and "
-        "widths 0, -1, -7 (ValueError) ; non-trivial = some source line needs >= 2 output lines or has length exactly w")
+        "widths 0, -1, -7 (ValueError) ; histories on one Widget (default content, max_width, earlier write / set_cursor_position, then "
+        "write(..., wordwrap=True) with row / col given (0 included) or omitted, widths given / defaulted / <= 0 / missing, block on/off) compared "
+        "cell by cell plus cursor ; non-trivial = some source line needs >= 2 output lines or has length exactly w, or (histories) a "
+        "non-empty word-wrapped write starting with the cursor away from (0, 0)")
 
 MANIFEST = dict(
     text=("Proof: for every text, every chunk oracle meeting the run-time-checked contract and every width, the Gallina render_text "
@@ -23,7 +26,10 @@ MANIFEST = dict(
           "concatenation of the wrapped source lines with one empty line per source line that wraps to nothing (C11_line_structure, "
           "C11_wrapped_lines_nonempty, C11_blank_line_only_from_blank_source, C11_blank_run_wraps_to_nothing, C11_every_source_line_starts_a_line), each line being the "
           "longest fitting prefix of the remaining chunks (C11_greedy, C11_greedy_inner), words longer than w being cut at a break point "
-          "in [1, w] (C11_long_words_split, C11_break_point_bounds), and widths <= 0 rejected (C11_nonpositive_width_rejected); closed under "
+          "in [1, w] (C11_long_words_split, C11_break_point_bounds), and widths <= 0 rejected (C11_nonpositive_width_rejected); "
+          "Widget.write(text, row, col, width, block, wordwrap=True) on any buffer / cursor / max_width types exactly those lines, line k at row+k "
+          "from column col (k = 0 or block) or 0, all other cells kept, cursor behind the last line (C11_write_is_typing_the_wrap, C11_write_lines_placed, "
+          "C11_write_other_cells_kept, C11_write_padding, C11_write_no_other_cell, C11_write_height, C11_write_cursor, C11_render_is_write); closed under "
           "the global context.  The model is tied to /repo on every run by executing the extracted model and the real widgets on the same "
           "exhaustive and random cases, and the property is also evaluated directly on the implementation's lines."),
     note=("Trusted: Coq kernel; extraction; harness; the chunking regex of textwrap (TextWrapper._split) is an oracle: its output is data of "
@@ -260,6 +266,180 @@ def evaluate(chk, cases, tag, with_spec=True):
                 chk.violation(v[0], v[1], dict(kind="c11", case=c, impl=i, model=m), found=True)
 
 
+# ------------------------------------------------------------------ histories on one widget: write(..., wordwrap=True) anywhere
+# op = ["wrap", s, row, col, width, block] | ["plain", s, row, col, width, block] | ["cursor", row, col]
+# history = dict(kind="hist", default=str, maxw=int|None, ops=[op, ...])
+PARAGRAPH = "alpha beta gamma delta epsilon zeta eta theta iota kappa lambda mu"
+
+
+def rows_of(w):
+    return [lib.cps("".join(r)) for r in w.content]
+
+
+def impl_history(h):
+    """Run the history on ONE real Widget; per op [0, rows, [row, col]] | [1] ValueError | [4] TypeError | [9, name];
+    also the cursor before each op (what the theorems' defaults refer to)."""
+    from simpleline.render.widgets import Widget
+    w = Widget(max_width=h["maxw"], default=h["default"]) if h["default"] else Widget(max_width=h["maxw"])
+    out, before = [], []
+    for o in h["ops"]:
+        before.append((rows_of(w), list(w.cursor)))
+        try:
+            if o[0] == "cursor":
+                w.set_cursor_position(o[1], o[2])
+            else:
+                w.write(o[1], row=o[2], col=o[3], width=o[4], block=o[5], wordwrap=(o[0] == "wrap"))
+            out.append([0, rows_of(w), list(w.cursor)])
+        except ValueError:
+            out.append([1])
+        except TypeError:
+            out.append([4])
+        except Exception as e:   # noqa
+            out.append([9, type(e).__name__])
+    return out, before
+
+
+def wire_history(h):
+    buf = [lib.cps(l) for l in h["default"].split("\n")] if h["default"] else []
+    ops = []
+    for o in h["ops"]:
+        if o[0] == "cursor":
+            ops.append([2, o[1], o[2]])
+        else:
+            txt = rc.wire_text(o[1]) if o[0] == "wrap" else lib.cps(o[1])
+            ops.append([0 if o[0] == "wrap" else 1, txt, lib.opt(o[2]), lib.opt(o[3]), lib.opt(o[4]), bool(o[5])])
+    return [buf, [0, 0], lib.opt(h["maxw"]), ops]
+
+
+def expected_after_wrap(rows, cursor, maxw, o):
+    """The theorems C11_write_* evaluated in Python: the state a wordwrap write must leave, from the state before it.
+    Returns [0, rows, cursor] | [1] | [4]."""
+    _, s, row, col, width, block = o
+    if not s:
+        return [0, rows, cursor]                                     # C11_write_empty_text
+    r = cursor[0] if row is None else row                            # an explicit 0 is 0
+    c = cursor[1] if col is None else col
+    if width is None and maxw:
+        width = maxw - c
+    if width is None:
+        return [4]                                                   # C11_write_no_width
+    if width <= 0:
+        return [1]                                                   # C11_write_nonpositive_width
+    L = []
+    for line in s.split("\n"):
+        L.extend(textwrap.wrap(line, width) or [""])                 # wrapped_lines (C11_line_structure / C11_greedy)
+    new = [list(x) for x in rows]
+    if L != [""]:                                                    # C11_write_height
+        while len(new) < r + len(L):
+            new.append([])
+    for k, l in enumerate(L):                                        # C11_write_lines_placed / _padding / _other_cells_kept
+        st = c if (k == 0 or block) else 0
+        if l:
+            rowk = new[r + k]
+            if len(rowk) < st + len(l):
+                rowk.extend([32] * (st + len(l) - len(rowk)))
+            rowk[st:st + len(l)] = lib.cps(l)
+    last = len(L) - 1
+    cur = [r + last, (c if (last == 0 or block) else 0) + len(L[-1])]    # C11_write_cursor
+    return [0, new, cur], (r, c, width, L)
+
+
+def classify_wrap(o, before, got, want):
+    """got / want: [0, rows, cursor] | [1] | [4]; names the theorem of props/C11.v that fails."""
+    exp, info = want if isinstance(want, tuple) else (want, None)
+    if got == exp:
+        return None
+    call = "write(%r, row=%r, col=%r, width=%r, block=%r, wordwrap=True) with the cursor at %s" % (o[1][:40], o[2], o[3], o[4], o[5], tuple(before[1]))
+    if got[0] != 0 or exp[0] != 0:
+        return ("write-outcome", "C11_write_nonpositive_width/C11_write_no_width/C11_write_is_typing_the_wrap: %s gives outcome %r, must be %r" % (call, got[:1], exp[:1]))
+    r, c, w, L = info if info else (0, 0, 0, [])
+    rows = got[1]
+    for k, l in enumerate(L):
+        st = c if (k == 0 or o[5]) else 0
+        if not l:
+            continue
+        have = rows[r + k][st:st + len(l)] if r + k < len(rows) else None
+        if have != lib.cps(l):
+            return ("wrapped-line-misplaced", "C11_write_lines_placed: %s must put line %d %r at row %d from column %d, found %r there"
+                    % (call, k, l, r + k, st, None if have is None else lib.uncps(have)))
+    if rows != exp[1]:
+        return ("other-cell-changed", "C11_write_other_cells_kept/C11_write_padding/C11_write_no_other_cell/C11_write_height: %s leaves rows %r, must be %r"
+                % (call, [lib.uncps(x) for x in rows][:6], [lib.uncps(x) for x in exp[1]][:6]))
+    return ("cursor-wrong", "C11_write_cursor: %s leaves the cursor at %r, must be %r" % (call, got[2], exp[2]))
+
+
+def rand_heading(rng):
+    return rng.choice(["H", "Head", "Title: ", "ab\ncd", "x\n", "one two", "0123456789", "  "])
+
+
+def history_cases(rng, tier):
+    out = []
+    # sweep: a heading of n characters, then the paragraph word-wrapped with row / col given (0 included) or not
+    for n in range(0, 5):
+        for row, col in [(None, None), (0, 0), (1, 0), (0, None), (None, 0), (1, 3), (2, None)]:
+            for width in [1, 4, 7, 12]:
+                for block in [False, True]:
+                    ops = ([["plain", "H" * n, None, None, None, False]] if n else []) + [["wrap", PARAGRAPH[:30], row, col, width, block]]
+                    out.append(dict(kind="hist", default="", maxw=None, ops=ops))
+    for _ in range(250 if tier == "quick" else 6000):
+        default = rng.choice(["", "", "H", "Head\nxx", "abc\n\ndefgh  ij", "0123456789abcdef\n0123456789abcdef\n0123456789abcdef"])
+        maxw = rng.choice([None, None, None, 0, 5, 10, 20])
+        ops = []
+        for _ in range(rng.choice([1, 1, 2])):
+            if rng.random() < 0.5:
+                ops.append(["plain", rand_heading(rng), rng.choice([None, None, 0, 1, 3]), rng.choice([None, None, 0, 2, 6]),
+                            rng.choice([None, None, 3, 8, 0]), rng.random() < 0.3])
+            else:
+                ops.append(["cursor", rng.randrange(0, 5), rng.randrange(0, 10)])
+        for _ in range(rng.choice([1, 1, 2, 3])):
+            s = rng.choice([PARAGRAPH[:rng.randrange(0, 60)], rand_text(rng, 60), rand_text(rng, 25), " ", "a\n\nb"])
+            ops.append(["wrap", s, rng.choice([None, None, 0, 0, 1, 2, 5]), rng.choice([None, None, 0, 0, 1, 3, 8]),
+                        rng.choice([None] if (maxw and rng.random() < 0.6) else [1, 2, 5, 7, 12, 30, 30, 0, -1, None]), rng.random() < 0.35])
+            if rng.random() < 0.2:
+                ops.append(["cursor", rng.randrange(0, 4), rng.randrange(0, 6)])
+        out.append(dict(kind="hist", default=default, maxw=maxw, ops=ops))
+    return out
+
+
+def evaluate_histories(chk, hists):
+    res_m = lib.model_run("wwrite", [wire_history(h) for h in hists])
+    for h, m in zip(hists, res_m):
+        got, before = impl_history(h)
+        chk.count()
+        chk.hist("history")
+        stopped = False
+        for k, o in enumerate(h["ops"]):
+            if k >= len(m):
+                break
+            mk = m[k]
+            if mk[0] in (2, 3):
+                chk.hist("history-op=outside-model" if mk[0] == 2 else "history-op=contract")
+                if mk[0] == 3:
+                    chk.violation("model-out-of-contract", "chunk contract violated by CPython's splitter on %r" % (o[1][:60],),
+                                  dict(kind="hist", case=h, op=k), found=False)
+                break
+            chk.hist("history-op=%s/%s" % (o[0], {0: "ok", 1: "ValueError", 4: "TypeError", 9: "other"}[got[k][0]]))
+            if o[0] == "wrap":
+                if before[k][1] != [0, 0] and o[1]:
+                    chk.nontriv(["hist", h["default"], h["maxw"], h["ops"][:k + 1]])
+                want = expected_after_wrap(before[k][0], before[k][1], h["maxw"], o)
+                exp = want[0] if isinstance(want, tuple) else want
+                if mk != exp:
+                    chk.violation("textwrap-model", "the model of Widget.write(wordwrap) disagrees with the theorems evaluated with CPython's textwrap on "
+                                  "history %r op %d: model %r, expected %r" % (h, k, mk, exp), dict(kind="hist", case=h, op=k, model=mk, spec=exp), found=False)
+                    break
+                v = classify_wrap(o, before[k], got[k], want)
+                if v:
+                    chk.violation(v[0], v[1], dict(kind="hist", case=h, op=k, impl=got[k], model=mk), found=True)
+                    break
+            elif got[k] != mk:
+                # plain write / set_cursor_position are C15's subject; here they only set the scene
+                chk.violation("scene-differs", "history %r: op %d (%s) leaves %r, the model %r" % (h, k, o[0], got[k], mk),
+                              dict(kind="hist", case=h, op=k, impl=got[k], model=mk), found=False)
+                break
+
+
+
 def batches(it, n):
     buf = []
     for x in it:
@@ -279,6 +459,9 @@ def run(chk, tier):
     for c in b[:2] + [x for x in b if x["s"] == "abcd\nef" and x["w"] == 4] + [x for x in b if x["s"].startswith("aaaa bb") and x["w"] == 5]:
         chk.sample(dict(case=c, impl=[lib.uncps(l) for l in impl(c)[1]] if impl(c)[0] == 0 else impl(c)), limit=6)
     evaluate(chk, b, "boundary")
+    hs = history_cases(rng, tier)
+    chk.sample(dict(case=hs[60], impl=impl_history(hs[60])[0]), limit=7)
+    evaluate_histories(chk, hs)
     evaluate(chk, random_cases(rng, 1200 if tier == "quick" else 25000), "random")
     evaluate(chk, entry_cases(rng, 300 if tier == "quick" else 3000), "entry")
     maxlen, sym_from = (6, 99) if tier == "quick" else (8, 7)
@@ -294,9 +477,33 @@ def run(chk, tier):
     chk.extra["exhaustive_scope"] = "alphabet %r, length <= %d, widths 1..6%s" % (ALPHABET, maxlen, "" if sym_from > maxlen else " (length >= %d up to a<->b renaming)" % sym_from)
 
 
+def replay_history(r):
+    h, k = r["case"], r["op"]
+    got, before = impl_history(h)
+    m = lib.model_run("wwrite", [wire_history(h)])[0]
+    show = lambda x: [[lib.uncps(l) for l in x[1]], x[2]] if x[0] == 0 else x
+    print("history:", h)
+    for j, o in enumerate(h["ops"]):
+        print(" op %d %r\n   impl : %s\n   model: %s" % (j, o, show(got[j]), show(m[j]) if j < len(m) else "-"))
+    bad = 0
+    for j, o in enumerate(h["ops"]):
+        if j >= len(m) or m[j][0] in (2, 3):
+            break
+        if o[0] == "wrap":
+            v = classify_wrap(o, before[j], got[j], expected_after_wrap(before[j][0], before[j][1], h["maxw"], o))
+            if v:
+                print("property violated:", v[0], "-", v[1])
+                bad = 1
+        if got[j] != m[j]:
+            bad = 1
+    return bad
+
+
 def replay(path):
     lib.use_repo()
     r = json.load(open(path))["replay"]
+    if r.get("kind") == "hist":
+        return replay_history(r)
     c = r["case"]
     i = impl(c)
     m = rc.model_render([(tree_of(c), c["w"])])[0]
